@@ -417,12 +417,18 @@ class Gen:
             self.features.add("cookie_param")
         op: dict[str, Any] = {}
         shape = r.choice(["camel", "snake", "absent", "fastapi"]) if "opid_shapes" in self.prof else r.choice(["camel", "snake"])
+        if "opid_shapes" in self.prof and r.random() < 0.08:
+            shape = "keyword"
         verbs = {"get": "get", "post": "create", "put": "replace", "patch": "update", "delete": "remove", "options": "describe", "trace": "echo"}
         noun = r.choice(["Thing", "Item", "Record", "Entry"]) + str(n)
         if shape == "camel":
             op["operationId"] = f"{verbs[method]}{noun}"
         elif shape == "snake":
             op["operationId"] = f"{verbs[method]}_{noun.lower()}"
+        elif shape == "keyword":
+            # a one-word operationId that is (or lower-cases to) a Python keyword / constant
+            op["operationId"] = r.choice(["Import", "Return", "Continue", "Pass", "Class", "from", "IN", "None", "True", "async", "Match"])
+            self.features.add("opid_keyword")
         elif shape == "fastapi":
             op["operationId"] = f"{verbs[method]}_{noun.lower()}_{seg}_res_{method}"
             self.features.add("opid_fastapi")
